@@ -161,7 +161,7 @@ pub fn wakelog_since(from: usize) -> Vec<u8> {
 
 // ------------------------------------------------------------ tagged values
 
-pub const MAX_TAGS: usize = 32;
+pub const MAX_TAGS: usize = 256;
 thread_local! {
     static DROPS: [Cell<u8>; MAX_TAGS] = const { [const { Cell::new(0) }; MAX_TAGS] };
 }
